@@ -147,6 +147,19 @@ def execute(sc):
                     viol.append('%s: borrowed share %r outside [0, %r]' % (when, sl, b['amt']))
                 if any(i > a for i, a in zip(inner, b['amt'])):
                     viol.append('%s: nested blocks hold %r of a share of %r' % (when, inner, b['amt']))
+            elif b['share'] is not None and b['state'] in ('leaving', 'done'):
+                sl = vec(b['share'].levels)
+                if any(x < 0 for x in sl):
+                    # known finding D18: only with its exact signature, anything else is a violation
+                    hits = len([f for f in inj.fired if f['victim'] == b['owner']])
+                    cut = [c for c in mon['blocks'] if c['parent'] is b and c['interrupted']]
+                    if hits >= 1 and cut and all(x >= 0 for x in lv):
+                        d18.append('%s: borrowed share of %r at %r: nested block of %r was interrupted '
+                                   'inside its %s (%d signal(s) on %s) and the owner then emptied the '
+                                   'share; supply %r' % (when, b['amt'], sl, cut[0]['amt'],
+                                                         cut[0]['interrupted'], hits, b['owner'], lv))
+                    else:
+                        viol.append('%s: borrowed share of %r negative: %r' % (when, b['amt'], sl))
 
     def mon_timestep(loop_time):
         """first activation of a new time step: everything scheduled in earlier steps has run"""
@@ -164,7 +177,7 @@ def execute(sc):
                                 (b['amt'], loop_time, pl))
 
     tasks, notes, runner_of = {}, {}, {}
-    live, hot = [], {}
+    live, hot, d18, body_ks = [], {}, [], {}
 
     class Block:
         """async context manager standing for `async with cm`, delimiting the sections of cm"""
@@ -248,8 +261,10 @@ def execute(sc):
             mb['state'] = 'entering'
             try:
                 share = await F.drive(self.cm.__aenter__(), self._enter_section, self._begin)
-            except BaseException:
+            except BaseException as e:
                 mb['state'], mb['t_done'] = 'done', time.now
+                if mb['took'] and not isinstance(e, ResourcesUnavailable):
+                    mb['interrupted'] = 'acquire'      # a signal inside the acquire postponements
                 raise
             mb['share'] = share
             mb['state'] = 'body'
@@ -264,6 +279,10 @@ def execute(sc):
             self.exiting = True
             try:
                 return await F.drive(self.cm.__aexit__(et, ev_, tb), self._exit_section, self._begin)
+            except BaseException as e:
+                if e is not ev_:
+                    mb['interrupted'] = 'release'      # a signal inside the release postponements
+                raise
             finally:
                 self.exiting = False
                 self.phase = 'gone'
@@ -281,7 +300,7 @@ def execute(sc):
         shares.append(cm)
         log(('New', parent_pool, am, blk['claim']), 'OOk')
         mb = dict(parent=parent_mb, amt=list(am), state='new', t_done=None, share=None, took=False,
-                  claim=blk['claim'])
+                  claim=blk['claim'], owner=owner, interrupted=None)
         mon['blocks'].append(mb)
         try:
             async with Block(cm, idx, parent_obj, mb, owner) as share:
@@ -365,6 +384,8 @@ def execute(sc):
         for blk in live:
             if blk.exiting or blk.phase in ('wait', 'taking', 'filling'):
                 hot.setdefault(blk.owner, []).append(k)
+            if blk.mb['state'] == 'body' and blk.mb['parent'] is not None:
+                body_ks.setdefault(blk.owner, []).append(k)
 
     crash = None
     with F.Activations() as acts:
@@ -387,7 +408,7 @@ def execute(sc):
         if v not in seen:
             seen.add(v)
             uniq.append(v)
-    return dict(events=ev, viol=uniq, nacts=acts.k, stats=st, hot=hot)
+    return dict(events=ev, viol=uniq, nacts=acts.k, stats=st, hot=hot, d18=d18, body_ks=body_ks)
 
 
 # ------------------------------------------------------------------ Coq rendering
@@ -494,7 +515,9 @@ def scenarios(ctx):
                 base['acts'][int(vic[1:])]['until'] = True
         r0 = execute(base)
         n = r0['nacts']
-        hotk = sorted(set(r0['hot'].get(vic, [])))          # victim suspended inside acquire/release
+        # victim suspended inside acquire/release after activation k; a cancel / until-trip must be
+        # queued BEFORE the activation that starts a postponement (its wake-up is FIFO ahead otherwise)
+        hotk = sorted({k - dk for k in r0['hot'].get(vic, []) for dk in (0, 1, 2) if k - dk >= 0})
         if len(hotk) > per_base * 2 // 3:
             hotk = sorted(rng.sample(hotk, per_base * 2 // 3))
         rest = [k for k in range(n) if k not in hotk]
@@ -532,13 +555,43 @@ def run(ctx):
         agg['events'] = agg.get('events', 0) + len(r['events'])
         if r['viol']:
             ctx.fail(sc, '; '.join(r['viol'][:3]), family='resources')
+        elif r['d18']:
+            ctx.fail(sc, r['d18'][0], finding='D18', family='resources')
+            ctx.bump('known_finding_D18')
         batch.append((sc, r['events']))
         if len(ctx.samples) < 3 and s['fault_acquire']:
             ctx.sample(dict(scenario=sc, events=[list(map(str, e)) for e in r['events'][:14]]))
+    batch += directed_d18(ctx)
     ctx.extra['sections_replayed'] = agg.get('events', 0)
     ctx.extra['landing'] = {k: v for k, v in agg.items() if k != 'events'}
     check_coq(ctx, batch, 'res')
     level_cases(ctx)
+
+
+def directed_d18(ctx):
+    """known finding D18: a signal landing inside the acquire/release postponements of a block nested
+    in a borrowed share (here: two cancels in a row, the second lands in the inner release) drives the
+    level of the borrowed SHARE transiently below zero (the supply stays >= 0 and is conserved)"""
+    base = dict(kind='cap', nk=1, supply=[4], adj=[], faults=[],
+                acts=[dict(start=1, until=False,
+                           blocks=[dict(claim=False, amt=[3], hold=2,
+                                        nested=dict(claim=False, amt=[1], hold=5, nested=None))])])
+    r0 = execute(base)
+    out = [(base, r0['events'])]
+    ctx.count(base)
+    for k in r0['body_ks'].get('t0', [])[:8]:
+        sc = json.loads(json.dumps(base))
+        sc['faults'] = [dict(kind='cancel', k=k, victim='t0'), dict(kind='cancel', k=k, victim='t0')]
+        r = execute(sc)
+        ctx.count(sc)
+        out.append((sc, r['events']))
+        if r['viol']:
+            ctx.fail(sc, '; '.join(r['viol'][:3]), family='resources')
+        elif r['d18']:
+            ctx.fail(sc, r['d18'][0], finding='D18', family='resources')
+            ctx.bump('known_finding_D18')
+            break
+    return out
 
 
 def search(ctx):
